@@ -228,3 +228,61 @@ func VerifH_C14_RetentionDoesNotStealReferences() {
 	zzverif.Assert(s.refCount == 0, "no reference is leaked or over-released")
 	zzverif.Assert(!c14Removed, "an unexpired segment is not deleted")
 }
+
+var c14FailInit int // index (in call order) of the initialize call that fails; -1: none
+
+func c14StubInitializeMayFail(s *c06Seg, _ context.Context) error {
+	if s.index != nil {
+		return nil
+	}
+	k := c14Inits
+	c14Inits++
+	if k == c14FailInit {
+		return errors.New("open failed")
+	}
+	s.index = &seriesIndex{}
+	return nil
+}
+
+//verif:harness prop=C14 tier=quick,thorough reach=finished native=off paths=200000 redirect=segment.initialize:c14StubInitializeMayFail,seriesIndex.Close:c14StubIndexClose,localFileSystem.MustRMAll:c14StubRMAll
+// Failed or partial acquisitions leave no references behind: when opening one of several
+// segments fails in the middle of selectSegments (range query) or segments (rotation), every
+// segment pinned earlier in the same call is released again, so nothing stays pinned forever.
+// bound: 2..3 idle-closed segments overlapping the query, the k-th reopen fails (or none)
+func VerifH_C14_PartialAcquisitionRollsBack() {
+	c14Removed, c14Inits, c14InitAfter = false, 0, false
+	n := 2 + zzverif.Choice("segments", 2)
+	c14FailInit = zzverif.Choice("failing open", 4) - 1
+	rec := fs.NewLocalFileSystem()
+	sc := &c06Ctl{opts: &TSDBOpts[c06Table, struct{}]{SegmentInterval: IntervalRule{Unit: DAY, Num: 1}, ShardNum: 1}, l: logger.GetLogger("c14"), lfs: rec}
+	for i := 0; i < n; i++ {
+		start := c06Min + int64(i)*int64(24*time.Hour)
+		sc.lst = append(sc.lst, &c06Seg{id: segmentID(i + 1), location: "/seg", suffix: "s", lfs: rec, l: sc.l, tsdbOpts: sc.opts,
+			TimeRange: timestamp.NewSectionTimeRange(time.Unix(0, start), time.Unix(0, start+int64(24*time.Hour)))})
+	}
+	viaSelect := zzverif.Bool("selectSegments")
+	var err error
+	var got int
+	if viaSelect {
+		var ss []Segment[c06Table, struct{}]
+		ss, err = sc.selectSegments(timestamp.NewInclusiveTimeRange(time.Unix(0, c06Min), time.Unix(0, c06Min+int64(96*time.Hour))), true)
+		got = len(ss)
+	} else {
+		var ss []*c06Seg
+		ss, err = sc.segments(context.Background(), true)
+		got = len(ss)
+	}
+	zzverif.Reach("finished")
+	failed := c14FailInit >= 0 && c14FailInit < n
+	zzverif.Assert((err != nil) == failed, "the call fails exactly when a reopen fails")
+	for _, s := range sc.lst {
+		if failed {
+			zzverif.Assert(s.refCount == 0, "a failed multi-segment acquisition releases every segment it had already pinned")
+		} else {
+			zzverif.Assert(s.refCount == 1, "a successful acquisition pins every returned segment once")
+		}
+	}
+	if !failed {
+		zzverif.Assert(got == n, "every overlapping segment is returned")
+	}
+}
